@@ -8,7 +8,7 @@ reference observation of every step; each history is rendered to one strict-mode
 (a) to a real array, (b) through Array.prototype.X.call on an equivalent plain array-like built from the
 model's pre-state, (c) to a Proxy-wrapped array with a forwarding handler, and dumps length / own keys /
 descriptors / return values natively after every step (harness crate harr = hjs + optional storage-kind hook)."""
-import json, os, random, sys, multiprocessing, hashlib
+import json, os, random, multiprocessing
 import vlib
 
 SPEC = os.path.join(vlib.SPEC, "objects", "MCArray.tla")
@@ -171,7 +171,6 @@ def js_arr_lit(els):
 
 
 STRING_KEYS = {"x": '"x"', "4294967295": "4294967295"}
-LIST_KINDS = {"keys", "values", "entries", "forEach", "okeys", "forin"}
 METHODS = {"push", "pop", "shift", "unshift", "splice", "fill", "copyWithin", "reverse", "sort", "concat", "slice",
            "flat", "indexOf", "lastIndexOf", "includes", "join", "at", "with", "toReversed", "toSorted", "toSpliced",
            "keys", "values", "entries", "spread", "map", "filter", "forEach", "find", "findIndex", "findLast",
